@@ -367,12 +367,19 @@ def _t_split(c):
     if c.bool():
         sec = c.choice([d for d in range(1, n + 1) if n % d == 0] if w != "array_split" else list(range(1, n + 2)))
     else:
-        sec = sorted(c.int(0, n) for _ in range(c.int(1, 2)))
+        # cut points as NumPy takes them: any order, repeated, negative or beyond the end (piece i is x[cut[i]:cut[i + 1]], so pieces may be
+        # empty or overlap); half of the cases keep the everyday increasing form
+        sec = [c.int(-n, n + 1) for _ in range(c.int(1, 3))]
+        if c.bool():
+            sec = sorted(abs(k) for k in sec)
+        if c.chance(1, 4):
+            sec = tuple(sec) if c.bool() else onp.array(sec)
     if w in ("split", "array_split"):
         fn = lambda ns, x: flat_parts(ns, getattr(ns, w)(x, sec, axis=ax))
     else:
         fn = lambda ns, x: flat_parts(ns, getattr(ns, w)(x, sec))
-    return Call("s:split", fn, [s], desc=[w, list(s), sec, ax], feats={"fn": w, "axis_neg": ax < 0, "sec_list": isinstance(sec, list)})
+    return Call("s:split", fn, [s], desc=[w, list(s), sec if isinstance(sec, int) else [int(k) for k in sec], ax],
+                feats={"fn": w, "axis_neg": ax < 0, "sec_list": not isinstance(sec, int), "sec_kind": type(sec).__name__})
 
 
 @template("s:concatenate", "shape", weight=2)
